@@ -169,6 +169,13 @@ class PathEnv:
         return {p + '[]' for p in self.paths(e)}
 
 
+def _if_chain(st):
+    out = [st]
+    while out[-1].orelse and len(out[-1].orelse) == 1 and isinstance(out[-1].orelse[0], ast.If):
+        out.append(out[-1].orelse[0])
+    return out
+
+
 def run(ctx):
     F = T.fields(ctx)
     ctx.not_decided += ['generator composition behaviour beyond R16.1c/d (e.g. a walrus inside a lambda inside a comprehension)',
@@ -189,7 +196,22 @@ def run(ctx):
         ok = isinstance(row, tuple) and len(row) == 2 and isinstance(row[0], FuncTok) and row[0].name == helper
         if ok:
             fis = ctx.repo.mod('fst_traverse').func(row[0].qualname)
-            is_gen = any(isinstance(n, (ast.Yield, ast.YieldFrom)) for n in walk_no_nested(fis[0].node)) if fis else None
+            def yields_values(fn_node, depth=0):
+                # a generator function, or a plain function whose every return hands back the result of calling one (delegation)
+                if any(isinstance(n, (ast.Yield, ast.YieldFrom)) for n in walk_no_nested(fn_node)):
+                    return True
+                rets = [n for n in walk_no_nested(fn_node) if isinstance(n, ast.Return) and n.value is not None]
+                if not rets or depth > 2:
+                    return False
+                for r in rets:
+                    v = r.value
+                    if not (isinstance(v, ast.Call) and isinstance(v.func, ast.Attribute) and norm(v.func.value) == 'self'):
+                        return False
+                    tgt = ctx.repo.mod('fst_traverse').func('_ScopeContext.' + v.func.attr)
+                    if not tgt or not yields_values(tgt[0].node, depth + 1):
+                        return False
+                return True
+            is_gen = yields_values(fis[0].node) if fis else None
             ok = fis and is_gen == row[1]
         ctx.check('R16.1a', bool(ok), 'fst_traverse', '_SCOPE_WALK_FUNCS', f'{cname}: {helper}',
                   f'{cname} must be handled by _ScopeContext.{helper} (with matching generator flag); found {row!r}: the scope '
@@ -244,16 +266,23 @@ def run(ctx):
                        'walrus targets (parent NamedExpr, pfield target) of a nested comprehension to the enclosing scope', 3)
     wc = ctx.repo.funcs('fst_traverse', '_ScopeContext.walk_Comp')[0]
     from ..struct import parent_map, enclosing_tests
-    wpar = parent_map(wc.node)
-    p0 = [x.arg for x in wc.node.args.args if x.arg != 'self'][0]
-    # (1) the first iterable is selected structurally: <T> = <param>.generators[0].iter
+    # (1) the first iterable is selected structurally: `<param>.generators[0].iter`, bound to a local or handed to the helper that does the walk
     first = None
-    for n in walk_no_nested(wc.node):
-        if isinstance(n, ast.Assign) and isinstance(n.targets[0], ast.Name):
-            v = n.value
-            if isinstance(v, ast.Attribute) and v.attr == 'iter' and isinstance(v.value, ast.Subscript) and isinstance(v.value.value, ast.Attribute) and \
-                    v.value.value.attr == 'generators' and norm(v.value.value.value) == p0 and isinstance(v.value.slice, ast.Constant) and v.value.slice.value == 0:
-                first = n.targets[0].id
+    wpar0 = parent_map(wc.node)
+    p0 = [x.arg for x in wc.node.args.args if x.arg != 'self'][0]
+    for v in ast.walk(wc.node):
+        if isinstance(v, ast.Attribute) and v.attr == 'iter' and isinstance(v.value, ast.Subscript) and isinstance(v.value.value, ast.Attribute) and \
+                v.value.value.attr == 'generators' and norm(v.value.value.value) == p0 and isinstance(v.value.slice, ast.Constant) and v.value.slice.value == 0:
+            par_ = wpar0.get(v)
+            if isinstance(par_, ast.Assign) and isinstance(par_.targets[0], ast.Name):
+                first = par_.targets[0].id
+            elif isinstance(par_, ast.Call) and isinstance(par_.func, ast.Attribute) and norm(par_.func.value) == 'self' and v in par_.args:
+                helper = ctx.repo.funcs('fst_traverse', '_ScopeContext.' + par_.func.attr)
+                if helper:
+                    hp = [x.arg for x in helper[0].node.args.args if x.arg != 'self']
+                    first = hp[par_.args.index(v)]
+                    wc = helper[0]
+    wpar = parent_map(wc.node)
     ctx.check('R16.1c', first is not None, wc.module, wc.qualname, 'first iterable selection',
               'walk_Comp does not select `<comprehension>.generators[0].iter` (the only part of a comprehension evaluated in the enclosing scope)', wc.lineno)
     # the enumerating loop `for f in <gen>` where <gen> = <node>.walk(...)
@@ -292,6 +321,26 @@ def run(ctx):
               wc.module, wc.qualname, f'locating walk: {norm(g0, 60)}',
               'the walk that has to find the first iterable and the walrus targets is filtered by the caller\'s `all` types: a first iterable of another '
               'class (e.g. the Call in `for i in range(n)`) is never seen, so nothing under it reaches the enclosing scope', g0.lineno)
+    # ---- R16.1e a lambda inside the comprehension is its own scope -------------------------------------------------------------------
+    ctx.rule('R16.1e', 'the walrus collection of walk_Comp does not descend into the body of a nested Lambda (own scope); it re-enters only through '
+                       'the parts stack_Lambda assigns to the enclosing scope', 1)
+    lam_arm = False
+    for n in walk_no_nested(wc.node):
+        if isinstance(n, ast.If):
+            arms = [n]
+            while arms[-1].orelse and len(arms[-1].orelse) == 1 and isinstance(arms[-1].orelse[0], ast.If):
+                arms.append(arms[-1].orelse[0])
+            for arm in arms:
+                if any(isinstance(x, ast.Name) and x.id == 'Lambda' for x in ast.walk(arm.test)) and \
+                        any(isinstance(x, ast.Call) and call_name(x) == 'send' and x.args and isinstance(x.args[0], ast.Constant) and x.args[0].value is False
+                            and loops and norm(x.func.value) == norm(loops[0].iter) for b in arm.body for x in ast.walk(b)) and \
+                        any(isinstance(x, ast.Call) and call_name(x) == 'stack_Lambda' for b in arm.body for x in ast.walk(b)):
+                    # the arm must be one of the loop's top-level decisions (not inside the first-iterable arm, which handles a lambda *as* first iterable)
+                    if loops and arm in [y for st in loops[0].body if isinstance(st, ast.If) for y in _if_chain(st)]:
+                        lam_arm = True
+    ctx.check('R16.1e', lam_arm, wc.module, wc.qualname, 'Lambda arm in the locating loop',
+              'NamedExpr targets inside the body of a lambda that sits in a comprehension are handed to the enclosing scope although they bind in the '
+              'lambda (symtable: local to the lambda)', wc.lineno)
     unfiltered = not (isinstance(a0, ast.Name) and a0.id in filt_names) and not (a0 is not None and norm(a0) == 'self.all')
     for y in (y_first + y_walrus) if unfiltered else []:
         gd = any(tr and mentions(t, lambda x: isinstance(x, ast.Call) and call_name(x) == 'check_all_param') for t, tr in guards(y))
